@@ -553,7 +553,7 @@ def sched_case(o0, impl, spec, md, chain_meta):
     evs = []
     for ev in sc["events"]:
         if ev[0] == "prewarm":
-            evs.append("(EvPreWarmup 1)")
+            evs.append("(EvPreWarmup (1 # 1)%Q)")
         elif ev[0] == "presample":
             evs.append("EvPreSample")
         elif ev[0] == "step":
@@ -596,6 +596,10 @@ def gen_chain(ctx, rng, cuqi, state, impl, tk, md, epsc, warm, cases, inners, n_
         cases.append(crash_case(impl, spec, md, "warm" if warm else "fresh", chain_meta, repr(ex)))
         return
     for j, (o, (z, e, us)) in enumerate(zip(obs, scripts)):
+        big = max([0.0] + [float(np.max(np.abs(np.concatenate([l[0], l[1]])))) for l in o["leaves"]])
+        if not big < 1e120:
+            state["skipped_float_overflow"] += 1      # squares overflow in binary64: outside the exact-arithmetic model
+            continue
         phase = ("warm" if warm else "fresh") if j == 0 else ("warm+1" if warm else "second")
         c, inner = mk_case(state, impl, spec, md, phase, o, z, e, us, chain_meta, j)
         cases.append(c)
@@ -652,7 +656,7 @@ def run(ctx):
     import cuqi
     rng = ctx.rng
     cases, inners = [], []
-    state = {"leg_guard": detect_leg_guard(cuqi), "leg_eps_replaced": 0}
+    state = {"leg_guard": detect_leg_guard(cuqi), "leg_eps_replaced": 0, "skipped_float_overflow": 0}
     mds = [0, 1, 2, 3] + ([4] if ctx.thorough else [])
     reps = ctx.n(1, 6)
     for impl in ("exp", "leg"):
@@ -664,10 +668,11 @@ def run(ctx):
                     for _ in range(reps if tk != "quartic" or md < 2 else 1):
                         gen_chain(ctx, rng, cuqi, state, impl, tk, md, epsc, 0, cases, inners)
     # after warm-up (adapted, non-dyadic step size and start)
+    # (an adapted step size is a 53-bit number: exact rationals then grow by ~160 bits per leaf, so trees stay shallow here)
     for impl in ("exp", "leg"):
         for tk in ("gauss", "split"):
-            for md in (1, 2, 3):
-                for _ in range(ctx.n(2, 10)):
+            for md in ((0, 1, 2) if ctx.thorough else (0, 1)):
+                for _ in range(ctx.n(3, 10) if md < 2 else 2):
                     gen_chain(ctx, rng, cuqi, state, impl, tk, md, "mid", rng.choice([3, 5, 10, 12]), cases, inners)
     tie_cases(ctx, rng, cuqi, state, cases)
     # how many of the scripted transitions were decided with all margins (sample)
@@ -698,7 +703,8 @@ def run(ctx):
                               signature="NUTS.%s.orbit_stationarity" % impl if d else ""))
     return Result(cases=cases, rule=RULE,
                   extra={"orbit_stationarity_checks": checked, "legacy_step_size_1.0_replaced_by_FindGoodEpsilon": state["leg_eps_replaced"],
-                         "legacy_refuses_+inf": state["leg_guard"]},
+                         "legacy_refuses_+inf": state["leg_guard"],
+                         "transitions_skipped_for_float_overflow": state["skipped_float_overflow"]},
                   assumptions=["targets are user-defined polynomial log-densities (Gaussian with diagonal precision, two-piece normal, quartic, box-truncated with NaN/-inf/+inf outside)",
                                "floating-point rounding of the implementation is not modelled: leaves are compared within 1e-9 and a case with a decision closer than 1e-7 (relative) to a tie is inconclusive (the share of conclusive cases is itself checked on a sample); exact-arithmetic tie cases are checked without margins",
                                "numpy.random is replaced by a scripted stream (momentum, exponential, uniforms)",
